@@ -51,8 +51,6 @@ def make_own(framing, kind, fcbyte, L):
             assume(rx[0] == 0x3A)
             assume(rx[3] == hx[0])
             assume(rx[4] == hx[1])
-            from harness.c07 import _lenient_lrc
-            assume(not _lenient_lrc(rx))            # C07's known finding (lenient LRC field) is not this property's subject
         elif framing == "binary":
             assume(rx[0] == 0x7B)
             assume(rx[2] == fcbyte)
